@@ -323,7 +323,7 @@ class Session:
                 if k.endswith("/*") and "/*" not in st1[1] and (snap2.get(k) != st1 or st1[1].split(".")[0] in newly)
             )
             detail = {
-                "wildcards_expanded_by_second_call": late, "newly_loaded": newly,
+                "wildcards_expanded_by_second_call": late, "late_sources": {k: snap1[k][1] for k in late}, "newly_loaded": newly,
                 "step_index": self.step_index, "first_call": {"unresolved": sorted(unresolved1), "iterations": it1},
             }
             if unresolved1 != unresolved2:
@@ -474,11 +474,39 @@ def _is_wildcard_born(case, fail: Fail) -> bool:
 
 
 def _is_late_expansion(case, fail: Fail) -> bool:
-    """fixpoint fails and the second resolve_aliases call expanded a wildcard import that the first call had left
-    in place (its source only became reachable through what the first call expanded or resolved): wildcard expansion
-    is one pass at the start of resolve_aliases, not part of the iteration."""
+    """fixpoint fails and the second resolve_aliases call expanded a wildcard import that the first call had left in
+    place, *and* the source of every such wildcard could not be looked up when the first call started: the same
+    history is re-run in a fresh loader up to the failing step and `collection.get_member(<source path>)` must raise
+    there (the source module is only provided by another expansion, or its package is only loaded during the first
+    call).  Wildcard expansion is one pass at the start of resolve_aliases, not part of the iteration.
+    A wildcard whose source can be looked up at that moment (a module, or an alias to a module) is expanded by the first
+    call on the pinned tree; if it is only expanded by the second call, that is not this finding."""
     d = fail.detail or {}
-    return fail.clause == "fixpoint" and fail.kind.endswith(":late-wildcard-expansion") and bool(d.get("wildcards_expanded_by_second_call"))
+    sources = d.get("late_sources") or {}
+    if not (fail.clause == "fixpoint" and fail.kind.endswith(":late-wildcard-expansion") and sources):
+        return False
+    idx = d.get("step_index")
+    steps = case["steps"]
+    if idx is None or idx >= len(steps):
+        return False
+    session = Session(case)
+    try:
+        for step in steps[:idx]:
+            if session.step(step):
+                return False
+        collection = session.loader.modules_collection
+        for source in sources.values():
+            try:
+                with time_limit(CALL_BUDGET_S):
+                    collection.get_member(source)
+            except (KeyError, *session.allowed):
+                continue
+            except (Exception, CaseTimeout):  # noqa: BLE001
+                return False
+            return False  # reachable when the first call started
+        return True
+    finally:
+        session.close()
 
 
 def _is_placeholder_leak(case, fail: Fail) -> bool:
